@@ -9,5 +9,5 @@ CONSTANTS
   Cfgs <- Cfgs03
   Junk = 34
   EmitOn = TRUE
-INVARIANTS ResumeEqFresh Stable OffsSane Emit EmitTwo EmitByte
+INVARIANTS ResumeEqFresh Idempotent Stable OffsSane Emit EmitTwo EmitByte
 CHECK_DEADLOCK FALSE
